@@ -38,7 +38,7 @@ BUDGET = {"quick": 1800, "thorough": 10000}
 LADDER = [1e2, 1e3, 1.1e4, 1e5, 1e6]
 
 
-def states(tier, seed):
+def _states_base(tier, seed):
     out = []
     if tier == "quick":
         xs = [1e-2, 0.1, 0.6]
@@ -85,6 +85,24 @@ class _P:
 def _v(st, what, msg):
     fp = dict(st, cls=what)
     return {"fp": fp, "fpkey": {"cls": what, "hq": st["hq"], "nfff": st["nfff"], "kind": st["kind"], "process": st["process"], "obs": st["obs"]}, "msg": msg}
+
+
+def states(tier, seed):
+    """quick = the full base lattice; thorough = base lattice + the deep extension."""
+    base = _states_base("thorough", seed)
+    if tier == "quick":
+        return base
+    seen = {digest(s) for s in base}
+    return base + [s for s in _states_deep(seed) if digest(s) not in seen]
+
+
+def _states_deep(seed):
+    out = []
+    for hq, nfff in (("charm", 3), ("bottom", 3), ("bottom", 4)):
+        for k, p in (("F2", "NC"), ("FL", "NC"), ("g1", "NC"), ("F2", "CC"), ("FL", "CC"), ("F3", "CC"), ("F2", "EM"), ("FL", "EM"), ("g1", "EM")):
+            for x in (1e-3, 3e-3, 1e-2, 0.03, 0.1, 0.2, 0.3, 0.45, 0.6, 0.8):
+                out.append({"hq": hq, "nfff": nfff, "kind": k, "process": p, "obs": "h", "pto": 1, "x": x})
+    return out
 
 
 def execute(st):
